@@ -1208,6 +1208,13 @@ func compileExpr(context *funcContext, reg int, expr ast.Expr, ec *expcontext) i
 			raiseCompileError(context, sline(ex), "cannot use '...' outside a vararg function")
 		}
 		context.Proto.IsVarArg &= ^VarArgNeedsArg
+		if ec.ctype == ecLocal && ec.varargopt == 0 && context.RegTop() > sreg+1 {
+			// VARARG leaves the stack top just above its last result: with other locals living above
+			// the target the value is fetched into a temporary first
+			code.AddABC(OP_VARARG, reg, 2, 0, sline(ex))
+			code.AddABC(OP_MOVE, sreg, reg, 0, sline(ex))
+			return 0
+		}
 		code.AddABC(OP_VARARG, sreg, 2+ec.varargopt, 0, sline(ex))
 		if context.RegTop() > (sreg+2+ec.varargopt) || ec.varargopt < -1 {
 			return 0
